@@ -12,7 +12,7 @@ import ast
 from typing import Optional
 
 from ..engine.srcmodel import AnalysisError, FuncInfo, Model, dotted, stmt_text, walk_local
-from ..engine.cfg import CFG, Node
+from ..engine.cfg import CFG, Node, calls_may_raise
 from ..engine.dataflow import branch_facts
 from ..engine.taint import Taint, State
 from ..engine.report import RuleResult
@@ -82,7 +82,7 @@ def analyse(f: FuncInfo, arr_m: set[str], map_m: set[str], res: RuleResult) -> i
         if own_storage else []
     if not src_calls and not src_attrs and not self_attrs:
         return 0
-    cfg = CFG(f.node)
+    cfg = CFG(f.node, calls_may_raise)
     facts = branch_facts(cfg)
     types = local_types(f)
 
